@@ -212,7 +212,7 @@ def skewSymmetric(w: ndarray) -> ndarray:
         [
             [0, -w[2], w[1]],
             [w[2], 0, -w[0]],
-            [-w[1], w[1], 0],
+            [-w[1], w[0], 0],
         ],
     )
 
